@@ -1369,3 +1369,56 @@ fn transcript_hs(c: &Cfg) -> Result<Vec<u8>, String> {
     for j in 0..nh { let (w, rd) = if j % 2 == 0 { (&mut i, &mut r) } else { (&mut r, &mut i) }; let n = w.write_message(&hs_payload(j), &mut buf).map_err(|e| format!("write {} {:?}", j, e))?; rd.read_message(&buf[..n], &mut p).map_err(|e| format!("read {} {:?}", j, e))?; all.extend_from_slice(&buf[..n]); }
     all.extend_from_slice(i.get_handshake_hash()); Ok(all)
 }
+
+#[test]
+fn C08_a_wrong_preshared_static_key_never_completes() {
+    // the initiator (or responder) holds a copy of the peer's static key that differs in ONE byte - first, middle or last:
+    // every byte of a pre-message key is hashed into h, so the handshake must fail (all patterns with a pre-message s; both DHs
+    // of the probe's configurations and the DH with a 16-byte shared secret)
+    let mut bad = 0;
+    for odd in [false, true] {
+        for (e, prim) in TABLE.iter().flat_map(|e| with_extensions(&["25519_ChaChaPoly_SHA256"]).into_iter().map(move |p| (e, p))) {
+            if odd && !prim.starts_with("25519") { continue; }
+            if !e.1.contains(&"s") && !e.2.contains(&"s") { continue; }
+            let name = format!("Noise_{}_{}", e.0, prim); let c = cfg(&name); let pl = c.si.1.len();
+            for victim_is_initiator in [true, false] {
+                let has_pre = if victim_is_initiator { e.2.contains(&"s") } else { e.1.contains(&"s") };
+                if !has_pre { continue; }
+                for pos in [0usize, pl / 2, pl - 1] {
+                    let mut wrong = if victim_is_initiator { c.sr.1.clone() } else { c.si.1.clone() }; wrong[pos] ^= 0x01;
+                    let params: NoiseParams = name.parse().unwrap();
+                    let mk_side = |initiator: bool| -> Result<HandshakeState, Error> {
+                        let mut b = match resolver(odd) { Some(r) => Builder::with_resolver(params.clone(), r), None => Builder::new(params.clone()) };
+                        let (me, peer, eph) = if initiator { (&c.si, &c.sr, &c.ei) } else { (&c.sr, &c.si, &c.er) };
+                        b = b.prologue(&c.prologue)?.local_private_key(&me.0)?.fixed_ephemeral_key_for_testing_only(eph);
+                        let peer_pre = if initiator { e.2 } else { e.1 };
+                        if peer_pre.contains(&"s") { b = b.remote_public_key(if initiator == victim_is_initiator { &wrong } else { &peer.1 })?; }
+                        if initiator { b.build_initiator() } else { b.build_responder() }
+                    };
+                    let (mut i, mut r) = match (mk_side(true), mk_side(false)) { (Ok(a), Ok(b)) => (a, b), _ => continue };
+                    if !rest_detects(&mut i, &mut r, 0, e.3.len()) {
+                        finding("C08", format!("{}{}: the {} holds a copy of the peer's pre-shared static key that differs in byte {} of {}, yet the handshake completes without an error", name, if odd { " (DH with a 16-byte shared secret)" } else { "" }, if victim_is_initiator { "initiator" } else { "responder" }, pos, pl)); bad += 1;
+                    }
+                }
+                if bad >= 4 { break; }
+            }
+            if bad >= 4 { break; }
+        }
+    }
+    assert_eq!(bad, 0);
+}
+#[test]
+fn C18_x25519_rfc7748_vectors_with_arbitrary_u_coordinates() {
+    // RFC 7748 section 5.2: the u-coordinates of these vectors are arbitrary field elements (not multiples of the base point), which
+    // is what distinguishes X25519 proper from a multiplication that silently assumes the prime-order subgroup
+    let mut bad = 0;
+    for (k, u, want) in [("a546e36bf0527c9d3b16154b82465edd62144c0ac1fc5a18506a2244ba449ac4", "e6db6867583030db3594c1a424b15f7c726624ec26b3353b10a903a6d0ab1c4c", "c3da55379de9c6908e94ea4df28d084f32eccf03491c71f754b4075577a28552"),
+                         ("4b66e9d4d1b4673c5ad22691957d6af5c11b6421e0ea01d42ca4169e7918ba0d", "e5210f12786811d3f4b7959d0538ae2c31dbe7106fc03c3efc4cd549c715a493", "95cbde9476e8907d7aade45cb4b873f88b595a68799fa152e6f8f7647aac7957"),
+                         ("0900000000000000000000000000000000000000000000000000000000000000", "0900000000000000000000000000000000000000000000000000000000000000", "422c8e7a6227d7bca1350b3e2bb7279f7897b87bb6854b783c60e80311ae3079")] {
+        let mut dh = DefaultResolver.resolve_dh(&DHChoice::Curve25519).unwrap();
+        dh.set(&unhex(k));
+        let mut out = [0u8; 65];
+        match dh.dh(&unhex(u), &mut out) { Ok(()) if out[..32] == unhex(want)[..] => {}, o => { finding("C18", format!("X25519({}, {}) = {} ({:?}), RFC 7748 section 5.2 says {}", k, u, hexs(&out[..32]), o, want)); bad += 1; } }
+    }
+    assert_eq!(bad, 0);
+}
